@@ -452,7 +452,12 @@ impl MerkleTree {
                     (
                         Some(DataHash {
                             index: block.index,
-                            nodes: p.nodes.expect("nodes need to be present"),
+                            nodes: p.nodes.ok_or_else(|| HypercoreError::InvalidOperation {
+                                context: format!(
+                                    "Could not collect proof nodes for block {}",
+                                    block.index
+                                ),
+                            })?,
                         }),
                         None,
                     )
@@ -461,7 +466,12 @@ impl MerkleTree {
                         None,
                         Some(DataHash {
                             index: hash.index,
-                            nodes: p.nodes.expect("nodes need to be set"),
+                            nodes: p.nodes.ok_or_else(|| HypercoreError::InvalidOperation {
+                                context: format!(
+                                    "Could not collect proof nodes for hash {}",
+                                    hash.index
+                                ),
+                            })?,
                         }),
                     )
                 } else {
@@ -481,10 +491,14 @@ impl MerkleTree {
                 Some(DataUpgrade {
                     start: upgrade.start,
                     length: upgrade.length,
-                    nodes: p.upgrade.expect("nodes need to be set"),
+                    nodes: p.upgrade.ok_or_else(|| HypercoreError::InvalidOperation {
+                        context: "Could not collect upgrade nodes".to_string(),
+                    })?,
                     additional_nodes: p.additional_upgrade.unwrap_or_default(),
                     signature: signature
-                        .expect("signature needs to be set")
+                        .ok_or_else(|| HypercoreError::InvalidOperation {
+                            context: "Tree has no signature to send with the upgrade".to_string(),
+                        })?
                         .to_bytes()
                         .to_vec(),
                 })
